@@ -54,7 +54,7 @@ def opFor (L : Loc) : Op → Bool
 
 /-- ops issued while user code runs (no bracketing event of their own) -/
 def Op.inner : Op → Bool
-  | .setStep _ | .endStep | .log .. | .check .. | .url .. | .attach .. | .attachBegin .. | .attachEnd
+  | .setStep _ | .endStep | .log .. | .check .. | .url .. | .attach .. | .attachBegin .. | .attachEnd | .attachAbort
   | .threadCreate _ | .threadRun | .threadEnd => true
   | _ => false
 
@@ -331,6 +331,13 @@ theorem step_loc {L : Loc} {s s' : St} {tid : Nat} {op : Op} (hinv : LocInv L s)
       exact steppedCase { s with prepared := s.prepared.eraseP (fun p => p.tid == tid) } false
         (fun loc st t => Event.attachment loc st tid p.name p.description p.asImage t)
         rfl rfl rfl (by simp [innerEv]) h
+  | attachAbort =>
+    simp only [step] at h
+    cases hf : s.prepared.find? (fun p => p.tid == tid) with
+    | none => rw [hf] at h; cases h
+    | some p =>
+      rw [hf] at h; simp only at h; injection h with h; subst h
+      exact ⟨locInv_of_eq hinv rfl rfl, [], by simp, by intro e he; cases he⟩
   | threadCreate newTid =>
     simp only [step, withCursor] at h
     cases hc : getCursor s tid with
@@ -549,6 +556,11 @@ theorem step_hasCursor {s s' : St} {tid : Nat} {op : Op} (a : Nat) (ha : (getCur
       rw [hf] at h; simp only at h
       exact viaStepped { s with prepared := s.prepared.eraseP (fun p => p.tid == tid) } false
         (fun loc st t => Event.attachment loc st tid p.name p.description p.asImage t) rfl h
+  | attachAbort =>
+    simp only [step] at h
+    cases hf : s.prepared.find? (fun p => p.tid == tid) with
+    | none => rw [hf] at h; cases h
+    | some p => rw [hf] at h; simp only at h; injection h with h; subst h; exact same _ rfl
   | threadCreate newTid =>
     simp only [step, withCursor] at h
     cases hc : getCursor s tid with
